@@ -20,7 +20,7 @@ cd $MUT/harness || exit 2
 if ! cargo build --bins > $MUT/build.log 2>&1 || ! cargo build --manifest-path $MUT/repo/Cargo.toml --bin monorail >> $MUT/build.log 2>&1; then
   tail -20 $MUT/build.log; git -C $MUT/repo checkout -- .; echo "INCONCLUSIVE build failed"; exit 2
 fi
-MRV_MONORAIL=$MUT/build/debug/monorail $MUT/build/debug/mrverif "$ID" --tier "$TIER"
+MRV_EVIDENCE_DIR=$MUT/evidence MRV_MONORAIL=$MUT/build/debug/monorail $MUT/build/debug/mrverif "$ID" --tier "$TIER"
 code=$?
 git -C $MUT/repo checkout -- .
 exit $code
